@@ -58,7 +58,15 @@ pub const CONSTRUCTS: &[(&str, &str, &str)] = &[
     ("luau-continue", "luau", "for i = 1, 2 do continue end\n"),
 ];
 
-pub const KINDS: &[(&str, &str)] = &[("block", " --[[c]] "), ("mblock", " --[[c\nd]] "), ("line", " --c\n")];
+pub const KINDS: &[(&str, &str)] = &[
+    ("block", " --[[c]] "),
+    ("mblock", " --[[c\nd]] "),
+    ("line", " --c\n"),
+    // the comment starts the next line (leading trivia of the following token)
+    ("nl-block", "\n--[[c]] "),
+    ("nl-line", "\n--c\n"),
+    ("nl-eqblock", "\n--[==[c]==] "),
+];
 
 pub fn configs() -> Vec<(&'static str, Config)> {
     let mk = |f: &dyn Fn(&mut Config)| {
